@@ -27,6 +27,8 @@ def run_property(prop, tier, seed, only=None):
     signal.signal(signal.SIGALRM, _alarm)
     signal.alarm(budget)
     try:
+        from . import anchors
+        anchors.verify(prop)
         mod.run(rep, tier)
     except _TimeBudget:
         # an analysis that does not converge on a changed tree is undecided, never a hang (quick runs take < 30 s on the repaired tree)
